@@ -354,3 +354,167 @@ class AllowedValuesIsEmpty(FnCheck):
             ex.oblige(st, 'never_raises', z3.BoolVal(False), info={'exc': repr(outcome[1])})
             return
         ex.oblige(st, 'empty_iff_no_values', truthy(outcome[1], st) == z3.Or(self.is_none.e, z3.Length(self.seq) == 0))
+
+
+# ---------------------------------------------------------------------------------------------------------------
+# element-valued properties: the value is an object that serialises itself into a child element (structural induction
+# over the type graph: the round trip of the value class itself is the induction hypothesis, stated as an assumption)
+CANON = z3.Function('canonical_value', Val, Val)       # value semantics of a data-type object ("equal value")
+SER = z3.Function('value_serialised_into', Val, Val)    # child element -> the value object it was written from
+
+
+class _ElementValueRoundTrip(SeqCheck):
+    prop = 'C05'
+    prop_cls = ''
+    writer = ''              # method of the value object that creates the child element
+    optional_fields = ('text',)
+    trusted = ('lxml find / SubElement / remove behave like a map tag -> first child',
+               'induction hypothesis: value_class.from_node(child written by the value) yields an equal value '
+               '(round trip of the nested class - bounded for the concrete classes by C05.datatype_roundtrip)')
+
+    @property
+    def targets_list(self):
+        return (f'{XS}:{self.prop_cls}.update_xml_value', f'{XS}:{self.prop_cls}.get_py_value_from_node')
+
+    def script(self, run, ex, st, b):
+        from pyvc import models as m
+        self.node, self.children = element_with_children(b, 'node')
+        qn = b.obj('sub_element_name', cls='QName')
+        name = vany(Val.ref(qn.e))
+        key = name.e
+        self.optional = b.bool('is_optional')
+        vcls = b.obj('value_class')
+        extra = {'_cls_getter': b.obj('cls_getter'), '_ns_helper': b.obj('ns_helper')} if self.prop_cls == 'ContainerProperty' else {}
+        prop = b.obj('self', cls=(XS, self.prop_cls), _sub_element_name=name, _local_var_name=b.str('local_var_name'),
+                     _is_optional=self.optional, value_class=vcls, _default_py_value=NONE, **extra)
+        inst = b.obj('instance')
+        vobj = b.obj('value_object')
+        self.present = b.bool('value_present')
+        v = vany(z3.If(self.present.e, Val.ref(vobj.e), Val.none), maybe_none=True, path='py_value')
+        b.distinct(prop, inst, self.node, self.children, qn, vobj, vcls)
+        dk0, dv0 = z3.Select(st.get_arr('DK'), self.children.e), z3.Select(st.get_arr('DV'), self.children.e)
+        # a node that is written for the first time: it has no child of this property yet
+        st.assume(z3.Not(z3.Select(dk0, key)))
+        text0 = z3.Select(st.get_arr('f:text'), self.node.e)
+
+        def find(ex_, s, args, kwargs):
+            has = m.dict_has(s, self.children, args[0])
+            return vany(z3.If(has, m.dict_val(s, self.children, args[0]), Val.none), maybe_none=True)
+
+        def sub_element(ex_, s, args, kwargs):
+            child = s.alloc('LxmlElement')
+            s.write_field(child, 'tag', args[1])
+            s.write_field(child, 'text', NONE)
+            m.dict_set(ex_, s, self.children, args[1], child)
+            return child
+
+        def remove(ex_, s, args, kwargs):
+            c = ex_.concrete_kind(s, args[0], ('ref',))
+            m.dict_del(ex_, s, self.children, s.read_field(c, 'tag'))
+            return NONE
+
+        def write_child(ex_, s, args, kwargs):
+            # value.as_etree_node(tag, nsmap, parent) / value.mk_node(tag, ns_helper, parent): a new child of `parent` with
+            # that tag which holds the serialised value
+            recv = s.ghost.get('c:recv')
+            parent = ex_.concrete_kind(s, args[2], ('ref',)) if len(args) > 2 else None
+            ex_.oblige(s, 'value_is_serialised_into_the_given_node', parent.e == self.node.e if parent is not None else z3.BoolVal(False))
+            child = s.alloc('LxmlElement')
+            s.write_field(child, 'tag', args[0])
+            s.write_field(child, 'text', NONE)
+            s.assume(SER(Val.ref(child.e)) == recv)
+            m.dict_set(ex_, s, self.children, args[0], child)
+            s.ghost['c:written'] = s.ghost.get('c:written', ()) + ((recv, s.box(args[0])),)
+            return child
+
+        def from_node(ex_, s, args, kwargs):
+            # induction hypothesis: reading the child a value was written into gives an equal value (new object)
+            r = s.alloc('Value')
+            s.assume(CANON(Val.ref(r.e)) == CANON(SER(s.box(args[0]))))
+            s.ghost['c:read_from'] = s.box(args[0])
+            return r
+        ex.ctx.callees.update({
+            'getattr': Pure(lambda e, s, a, k: v, name='getattr(instance, local_var_name) -> stored value'),
+            'hasattr': Pure(lambda e, s, a, k: vbool(fresh(BoolS, 'hasattr')), name='hasattr (unknown)'),
+            'copy.deepcopy': Pure(lambda e, s, a, k: vany(z3.If(Val.is_none(s.box(a[0])), Val.none, Val.ref(s.alloc('Copy').e)), maybe_none=True),
+                                  name='copy.deepcopy: None stays None, an object gives a new object', trusted=True),
+            '*.find': Pure(find, name='lxml node.find(tag): first child with that tag or None', trusted=True),
+            'lxml.etree.SubElement': Pure(sub_element, name='etree.SubElement(node, tag)', trusted=True),
+            'etree.SubElement': Pure(sub_element, name='etree.SubElement(node, tag)', trusted=True),
+            '*.remove': Pure(remove, name='lxml node.remove(child)', trusted=True),
+            '*.' + self.writer: Pure(write_child, name=f'value.{self.writer}(tag, ns, parent): new child holding the value'),
+            '*.value_class_from_node': Pure(lambda e, s, a, k: vcls, name='value_class.value_class_from_node(node)'),
+            '*.from_node': Pure(from_node, name='value_class.from_node(child) (induction hypothesis)'),
+            '*.set': Pure(lambda e, s, a, k: NONE, name='child.set(xsi:type, ...)'),
+            '*.get': Pure(lambda e, s, a, k: NONE, name='child.get(xsi:type) -> None (no type substitution)'),
+            f'{XS}:docname_from_qname': Pure(lambda e, s, a, k: vstr(fresh(StrS, 'docname')), name='docname_from_qname'),
+            'sdc11073.namespaces:docname_from_qname': Pure(lambda e, s, a, k: vstr(fresh(StrS, 'docname')), name='docname_from_qname'),
+        })
+        ex.ctx.inline.add(f'{XS}:_XmlStructureBaseProperty.is_optional')
+        ex.ctx.inline.add(f'{XS}:_ElementBase._get_element_by_child_name')
+        ex.ctx.inline.add(f'{XS}:_ElementBase.remove_sub_element')
+        ex.ctx.module_constants = dict(getattr(ex.ctx, 'module_constants', {}))
+        ex.ctx.module_constants[f'{XS}:MANDATORY_VALUE_CHECKING'] = True
+        outs = []
+        for s1, r1 in run(st, self.targets_list[0], prop, [inst, self.node]):
+            if isinstance(r1, Raise):
+                ex.oblige(s1, 'write_refused_only_for_missing_mandatory_value', z3.And(
+                    z3.BoolVal(r1.exc.cls == 'ValueError'), z3.Not(self.present.e), z3.Not(self.optional.e)), info={'exc': repr(r1.exc)})
+                continue
+            dk1, dv1 = z3.Select(s1.get_arr('DK'), self.children.e), z3.Select(s1.get_arr('DV'), self.children.e)
+            kq = z3.Const('kq', Val)
+            written = s1.ghost.get('c:written', ())
+            ex.oblige(s1, 'other_children_untouched', z3.ForAll([kq], z3.Implies(kq != key, z3.And(
+                z3.Select(dk1, kq) == z3.Select(dk0, kq), z3.Select(dv1, kq) == z3.Select(dv0, kq)))))
+            ex.oblige(s1, 'own_text_of_the_node_untouched', z3.Select(s1.get_arr('f:text'), self.node.e) == text0)
+            ex.oblige(s1, 'present_value_is_written_once_under_the_tag_of_the_property', z3.Implies(self.present.e, z3.And(
+                z3.BoolVal(len(written) == 1), written[0][0] == Val.ref(vobj.e), written[0][1] == key) if len(written) == 1 else z3.BoolVal(False)))
+            ex.oblige(s1, 'absent_value_writes_no_value', z3.Implies(z3.Not(self.present.e), z3.BoolVal(len(written) == 0)))
+            ex.oblige(s1, 'absent_optional_value_leaves_no_child', z3.Implies(z3.And(z3.Not(self.present.e), self.optional.e),
+                                                                               z3.Not(z3.Select(dk1, key))))
+            for s2, r2 in run(s1, self.targets_list[1], prop, [inst, self.node]):
+                if isinstance(r2, Raise):
+                    ex.oblige(s2, 'read_never_raises', z3.BoolVal(False), info={'exc': repr(r2.exc)})
+                    continue
+                rb = s2.box(r2)
+                ex.oblige(s2, 'read_back_is_an_equal_value', z3.Implies(self.present.e, z3.And(
+                    Val.is_ref(rb), CANON(rb) == CANON(Val.ref(vobj.e)))))
+                ex.oblige(s2, 'absent_optional_value_reads_back_as_none', z3.Implies(z3.And(z3.Not(self.present.e), self.optional.e),
+                                                                                   Val.is_none(rb)))
+                ex.oblige(s2, 'read_does_not_change_node', z3.And(
+                    z3.Select(s2.get_arr('DK'), self.children.e) == dk1, z3.Select(s2.get_arr('DV'), self.children.e) == dv1))
+                outs.append((s2, ('ret', r2)))
+        return outs
+
+    def hooks(self, ex):
+        class H:
+            tracked_names = ()
+
+            @staticmethod
+            def on_call(ex_, st, fv, keys, args, kwargs, node):
+                if fv.t == 'method':
+                    st.ghost['c:recv'] = st.box(fv.recv)
+                return None
+        return H
+
+
+@register
+class SubElementRoundTrip(_ElementValueRoundTrip):
+    id = 'C05.sub_element_roundtrip'
+    prop_cls = 'SubElementProperty'
+    writer = 'as_etree_node'
+    doc = ('SubElementProperty (data-type valued members, e.g. MetricValue, CoreData, Type): a present value is serialised '
+           'exactly once, into the node being written, under the tag of the property, and reading the node back yields an '
+           'equal value (through the round trip of the value class - induction hypothesis); an absent optional value '
+           'writes nothing and reads back as None; a missing mandatory value is refused; other children and the text of '
+           'the node are untouched; reading does not change the node. Precondition: the node has no child of this '
+           'property yet (the method appends; writing twice into one node is not what the library does)')
+
+
+@register
+class ContainerPropertyRoundTrip(_ElementValueRoundTrip):
+    id = 'C05.container_property_roundtrip'
+    prop_cls = 'ContainerProperty'
+    writer = 'mk_node'
+    doc = ('ContainerProperty (container valued members, e.g. the state inside a report part): same obligations as '
+           'C05.sub_element_roundtrip; an existing child of the property is removed before the value is written')
